@@ -22,7 +22,7 @@ ezc3d::DataNS::Points3dNS::Point::Point(const ezc3d::DataNS::Points3dNS::Point &
     x(p.x());
     y(p.y());
     z(p.z());
-    residual(0);
+    residual(p.residual());
 }
 
 void ezc3d::DataNS::Points3dNS::Point::print() const
